@@ -20,7 +20,9 @@ def _strip(e):
         if isinstance(node, exp.Identifier):
             return exp.Identifier(this=node.this, quoted=False)
         if isinstance(node, exp.Count) and isinstance(node.this, exp.Star):
-            return exp.Count(this=exp.Literal.number(1))       # COUNT(*) = COUNT(1)
+            node = node.copy()
+            node.set("this", exp.Literal.number(1))          # COUNT(*) = COUNT(1)
+            return node
         return node
     e = e.transform(tr)
 
@@ -57,6 +59,23 @@ def normal_form(sql: str) -> str:
     return tree.sql(dialect="duckdb", normalize=False, pretty=False)
 
 
+def _tree(sql: str):
+    sql = re.sub(r"--[^\n]*", "", sql)
+    tree = sqlglot.parse_one(sql, dialect="duckdb")
+    tree = _strip(tree)
+    for cte in tree.find_all(exp.CTE):
+        sel = cte.this
+        if isinstance(sel, exp.Select):
+            sel.set("expressions", sorted(sel.expressions, key=lambda x: x.alias_or_name))
+    return tree
+
+
+def fingerprint(sql: str) -> str:
+    """structural form of the normalised tree: once Paren nodes are dropped only the TREE carries precedence, so the
+    comparison must not go through printed text (`x AND (a OR b)` and `x AND a OR b` print alike without Paren nodes)"""
+    return repr(_tree(sql))
+
+
 def same(sql_a: str, sql_b: str) -> tuple[bool, str, str]:
     a, b = normal_form(sql_a), normal_form(sql_b)
-    return a == b, a, b
+    return fingerprint(sql_a) == fingerprint(sql_b), a, b
